@@ -1,5 +1,6 @@
 import Operon.Model.Proto
 import Operon.Model.Ribosome
+import Operon.Model.Tmpl
 /-! Line-protocol driver for the ribosome model (C12).
 
   env <extraWordCps> <extraSpaceCps> <markerPre> <markerSuf> <filterName>*
@@ -9,7 +10,7 @@ import Operon.Model.Ribosome
   render <sequence> <strict>         (Ribosome(strict).synthesize)
   translate <name> <strict>          (Ribosome(strict).translate(name))
 -/
-open Operon Operon.Proto Operon.Ribosome
+open Operon Operon.Proto Operon.Ribosome Operon.Tmpl
 
 structure DSt where
   words : List Nat := []
@@ -71,6 +72,89 @@ def showRes : Res → String
   | .error .recursion => "raise:RecursionError"
   | .error (.other c) => "raise:" ++ showCls c
 
+def noBrace (s : Str) : Bool := s.all fun c => c != 123 && c != 125
+
+def tokNoBrace : Tok → Bool
+  | .text s => noBrace s
+  | .val s => noBrace s
+  | .pipe _ a => noBrace a
+  | _ => true
+
+/-- the regime in which the three layers must coincide: no brace in any value, item, field, filter result,
+    marker, template text or default -/
+def braceFreeRegime (st : DSt) (tops : List Tok) (reg : Reg) : Bool :=
+  st.ctx.all (fun p => noBrace p.2.text &&
+    (p.2.items.getD []).all (fun it => noBrace it.text && it.fields.all (fun f => noBrace f.1 && noBrace f.2))) &&
+  st.fenv.all (fun e => match e.2 with | .ok r => noBrace r | .raise _ => true) &&
+  noBrace st.mpre && noBrace st.msuf && tops.all tokNoBrace && reg.all (fun p => p.2.all tokNoBrace)
+
+def tokTags (cfg : Cfg) (ctx : Ctx) (reg : Reg) : Tok → List String
+  | .var n => [if isBound ctx n then "var:bound" else "var:unbound"]
+  | .opt n => [if isBound ctx n then "opt:bound" else "opt:unbound"]
+  | .inc n => [if (lookup n reg).isSome then "inc:known" else "inc:unknown"]
+  | .pipe n a =>
+    if cfg.filters.contains a then
+      [if isWordStr cfg a then (if isBound ctx n then "filt:apply" else "filt:unbound") else "dflt:isfilter"]
+    else (if isWordStr cfg a && isBound ctx n then ["filt:unknown"] else []) ++
+      [if isBound ctx n then "dflt:bound" else "dflt:default"]
+  | _ => []
+
+def segTags (cfg : Cfg) (ctx : Ctx) (reg : Reg) : Seg → List String
+  | .tok t => tokTags cfg ctx reg t
+  | .ifB _ n a e =>
+    (if truthyOf ctx n then ["cond:then"] else if e.isSome then ["cond:else"] else ["cond:noelse"]) ++
+      (a ++ e.getD []).flatMap (tokTags cfg ctx reg)
+  | .each _ n b =>
+    (match lookup n ctx with
+     | none => ["loop:notlist"]
+     | some v => match v.items with
+       | none => ["loop:notlist"]
+       | some [] => ["loop:empty"]
+       | some its => ["loop:items"] ++ (if its.any (fun it => !it.fields.isEmpty) then ["loop:dict"] else [])) ++
+      b.flatMap (tokTags cfg ctx reg)
+
+def resText : Res → Option Str
+  | .ok (s, _) => some s
+  | .error _ => none
+
+/-- run the three layers on one template; observation of the string layer + layer report as tags -/
+def renderAll (st : DSt) (strict : Bool) (top : Str) : String :=
+  let cfg := mkCfg st strict
+  let rs := translate cfg st.ctx defaultFuel top
+  let tops := lex cfg top
+  let reg : Reg := st.templates.map fun p => (p.1, lex cfg p.2)
+  let rt := renderTok cfg reg st.ctx defaultFuel tops
+  let tt : Option Str := match rt with | .ok (x, _) => some (printToks x) | .error _ => none
+  let layersAgree := resText rs == tt
+  let sreg : Option SReg := reg.foldr (fun p acc =>
+    match acc, parse p.2 with
+    | some l, some t => some ((p.1, t) :: l)
+    | _, _ => none) (some [])
+  let spec : Option (Except Err Str) :=
+    match parse tops, sreg with
+    | some t, some sr => some (renderSpec cfg sr st.ctx defaultFuel t)
+    | _, _ => none
+  let specAgree : Option Bool := spec.map fun r =>
+    match tt, r with
+    | some a, .ok b => a == b
+    | none, .error _ => true
+    | none, .ok _ => strict
+    | some _, .error _ => false
+  let must := braceFreeRegime st tops reg
+  let tags := (match parse tops with | some t => t.flatMap (segTags cfg st.ctx reg) | none => ["spec:none"]) ++
+    [if layersAgree then "layers:agree" else "layers:differ"] ++
+    (match specAgree with | some true => ["spec:agree"] | some false => ["spec:differ"] | none => []) ++
+    (match rs with
+     | .error .value => ["strict:raise"]
+     | .error .recursion => ["raise:recursion"]
+     | .error (.other _) => ["raise:filter"]
+     | .ok (_, w) => if w.isEmpty then [] else ["warn:any"])
+  let obs := if must && (!layersAgree || specAgree == some false)
+    then "LAYER-DIFF " ++ showRes rs ++ " tok=" ++ (match tt with | some x => encodeCps x | none => "raise")
+      ++ " spec=" ++ (match spec with | some (.ok x) => encodeCps x | some (.error _) => "raise" | none => "none")
+    else showRes rs
+  obs ++ " ## " ++ joinSp tags
+
 def step (st : DSt) (toks : List String) : DSt × String :=
   match toks with
   | "env" :: w :: s :: p :: q :: fs =>
@@ -85,10 +169,11 @@ def step (st : DSt) (toks : List String) : DSt × String :=
     ({ st with templates := ts }, "ok")
   | "ctx" :: es => ({ st with ctx := es.filterMap parseEntry, fenv := [] }, "ok")
   | "fenv" :: es => ({ st with fenv := es.filterMap parseF }, "ok")
-  | ["render", s, strict] =>
-    (st, showRes (translate (mkCfg st (boolOf strict)) st.ctx defaultFuel (decodeCps s)))
+  | ["render", s, strict] => (st, renderAll st (boolOf strict) (decodeCps s))
   | ["translate", n, strict] =>
-    (st, showRes (translateNamed (mkCfg st (boolOf strict)) st.ctx (decodeCps n)))
+    match lookup (decodeCps n) st.templates with
+    | some t => (st, renderAll st (boolOf strict) t)
+    | none => (st, showRes (translateNamed (mkCfg st (boolOf strict)) st.ctx (decodeCps n)))
   | _ => (st, "bad-op")
 
 def main : IO Unit := runDriver ({} : DSt) step
